@@ -134,6 +134,25 @@ class Gen5(P.Gen):
         return P.Step("unnamedpick", "select {%s}" % ", ".join("%s.%s" % p for p in picks),
                       "TSelect [%s]" % "; ".join("(None, ECol (Some %d%%N) %d%%N)" % (P.nid(q), P.nid(c)) for q, c in picks))
 
+    def t_joinboth(self, st):
+        """after a join of the two wildcard tables: a derive that uses t.N, then (behind the sub-query split the derive's use in a
+        filter forces) a filter on u.N, for a column name N both tables have"""
+        if not st["joined"] or any(x.kind in ("knownjoin", "unnamedjoin") for x in st["steps"]):
+            return None
+        r = self.r
+        shared = [n for n in ("a", "g", "id") if ("t", n) in st["cols"] and ("u", n) in st["cols"]]
+        if not shared:
+            return None
+        n_ = r.choice(shared)
+        nm = self.newname()
+        e = ("bin", "Add", ("col", "t", n_), ("lit", 1))
+        st["steps"].append(P.Step("derive", "derive {%s = %s}" % (nm, P.prql_expr(e)), "TDerive [(Some %d%%N, %s)]" % (P.nid(nm), P.coq_expr(e))))
+        st["cols"] = st["cols"] + [(None, nm)]
+        f = ("bin", "Or", ("bin", "Gt", ("col", "u", n_), ("lit", 0)), ("isnull", ("col", "u", n_), False))
+        if r.random() < 0.5:
+            f = ("bin", "And", f, ("bin", "Or", ("bin", "Ne", ("col", None, nm), ("lit", 99)), ("isnull", ("col", None, nm), False)))
+        return P.Step("filter", "filter %s" % P.prql_expr(f), "TFilter %s" % P.coq_expr(f))
+
     def t_casealias(self, st):
         """an alias that differs from its source column only by case: PRQL names are case-sensitive, so this is a
         NEW column next to the old one (terminal: engines resolve later references case-insensitively)"""
@@ -503,6 +522,7 @@ def run():
     add(["casealias"], False, k=4 * m)
     add(["derive", "casealias"], False, k=4 * m)
     add(["group_take"], False, k=4 * m)
+    add(["join", "joinboth"], False, k=6 * m)                  # t.N in a derive, u.N in a filter behind the split (N in both tables)
     add(["unnamedjoin"], False, k=8 * m)                       # joined sub-pipeline with two un-named columns: reaching the result / behind a closing select
     add(["sort", "unnamedjoin"], False, rename=True, k=4 * m)
     add(["derive", "group_win", "exclude"], False, k=4 * m)
